@@ -68,7 +68,7 @@ def replay(path):
                 finish_replay(path, {"tags": ch, "result": r})
         finish_replay(path, None, f"({n} chains tried)")
     if unit in ("get_job_step_name", "get_job_tag"):
-        steps = ["/a", "/a/b", "/s.1/b-c", "/x/y/z", "/0", "/a/0.1"]
+        steps = ["/", "/a", "/a/b", "/s.1/b-c", "/x/y/z", "/0", "/a/0.1"]  # "/" is the step of a single-tool document
         for s in steps:
             for t in tags(3, (0, 1, 10)):
                 j = posixpath.join(s, t)
@@ -113,7 +113,7 @@ def crosscheck(n):
                 if not (dx <= dy and len(x) <= len(y) and ((dx < dy) == (len(x) < len(y)))):
                     bad.append(("chain", x, y))
         # job_name_splits
-        s = "/" + "/".join(rng.choice(["a", "b.c", "step-1", "0", "x_y"]) for _ in range(rng.randint(1, 4)))
+        s = "/" + "/".join(rng.choice(["a", "b.c", "step-1", "0", "x_y"]) for _ in range(rng.randint(0, 4)))
         j = posixpath.join(s, a)
         from pathlib import PurePosixPath
 
